@@ -5,6 +5,7 @@ mod common;
 mod c06;
 mod c16;
 mod c17;
+mod c19;
 
 use mc_core::Tier;
 
@@ -41,6 +42,7 @@ fn main() {
         "C06" => c06::run(tier, replay),
         "C16" => c16::run(tier, replay),
         "C17" => c17::run(tier, replay),
+        "C19" => c19::run(tier, replay),
         _ => {
             eprintln!("MACHINERY-ERROR: unknown property id {id}");
             2
